@@ -509,6 +509,30 @@ func BuildScenario(seed int64, pow bool) (*Scenario, error) {
 		sc.fail("send to unknown chain succeeded")
 	}
 	w.Roll(a)
+	// one EVM transaction that sends twice: the first send is numbered and committed inside the hook, the second names an
+	// unknown chain, so the whole transaction is dropped - together with everything the first send wrote. The next send on
+	// the path gets the number the dropped one had (on every node, restarted or not)
+	{
+		d, fee := s.CrossChainData(pkt.SendSpec{Src: a, Dst: b, User: u2, Call: s.CallTo(b, "counter")})
+		step := func(dst string) core.Step {
+			dd := d
+			dd.DstChain = dst
+			data, err := core.EndpointABI.Pack("crossChainCall", dd, fee)
+			if err != nil {
+				panic(err)
+			}
+			return core.Step{Kind: core.KindCall, Target: core.EndpointAddr, Data: data, MustOK: true}
+		}
+		mc := deploy(u2, core.InitCode(core.Multicall([]core.Step{step(nameB), step("no-such-chain")})), "two sends in one transaction")
+		if sc.ethAny(u2, &mc, nil, nil) {
+			sc.fail("a transaction whose second send names an unknown chain succeeded")
+		}
+		sc.cover("tx-dropped-after-its-first-send-was-numbered")
+		w.Roll(a)
+		if p := send(pkt.SendSpec{Src: a, Dst: b, User: u0, Call: s.CallTo(b, "counter")}, "A->B after a dropped double send"); p != nil {
+			relay(p, "A->B after a dropped double send")
+		}
+	}
 
 	// ---- conversions (aggregate msgs)
 	sc.tx(u0, "convert coin", aggregatetypes.NewMsgConvertCoin(sdk.NewInt64Coin("acoin", 4000), u0.Eth, u0.Acc))
